@@ -233,8 +233,10 @@ def run_roundtrip(plan, out, C, log):
         with ac.quiet():
             t1 = model.compute_individual_trajectory(ages, ipd).numpy()
             t2 = loaded.compute_individual_trajectory(ages, ipd).numpy()
-        if t1.shape != t2.shape or not np.allclose(t1, t2, rtol=0, atol=1e-6):
-            violation(out, "roundtrip_trajectories", f"trajectories_changed:{info['family']}", f"{where}: max diff {float(np.abs(t1 - t2).max()) if t1.shape == t2.shape else 'shape'}")
+        # (a degenerate fitted event shape, rho = exp(75), gives NaN incidences in both models: same place = same trajectory)
+        if t1.shape != t2.shape or not np.allclose(t1, t2, rtol=0, atol=1e-6, equal_nan=True):
+            violation(out, "roundtrip_trajectories", f"trajectories_changed:{info['family']}", f"{where}: max diff {float(np.nanmax(np.abs(t1 - t2))) if t1.shape == t2.shape else 'shape'}; "
+                      f"NaN places equal: {bool(t1.shape == t2.shape and (np.isnan(t1) == np.isnan(t2)).all())}")
         with ac.quiet():
             loaded.save(p2)
         b1, b2 = open(p1, "rb").read(), open(p2, "rb").read()
